@@ -25,10 +25,11 @@ ENV_ASSUMPTIONS = [
 
 
 class PathResult:
-    __slots__ = ('kind', 'value', 'conds', 'world', 'log', 'msg', 'observed', 'tag', 'prefix')
-    def __init__(self, kind, value, conds, world, log, msg='', observed=None, prefix=None):
+    __slots__ = ('kind', 'value', 'conds', 'world', 'log', 'msg', 'observed', 'tag', 'prefix', 'scenario', 'prog', 'extra')
+    def __init__(self, kind, value, conds, world, log, msg='', observed=None, prefix=None, scenario=None, prog=None):
         self.kind = kind; self.value = value; self.conds = conds; self.world = world; self.log = log; self.msg = msg
-        self.observed = observed or {}; self.tag = ''; self.prefix = prefix
+        self.observed = observed or {}; self.tag = ''; self.prefix = prefix; self.scenario = scenario; self.prog = prog
+        self.extra = {}
     @property
     def ok(self): return self.kind == 'ret' and isinstance(self.value, Enum) and self.value.variant == 'Ok'
     @property
@@ -92,7 +93,7 @@ class Check:
             p = Program(list(crates)); self.progs[key] = p; self.regen_s += p.regen_s
         return self.progs[key]
 
-    def explore(self, prog, body, label='', unroll=40, feas_ms=2000, max_paths=4000, stubs=None, loop_abs=None, keep_unsupported=True):
+    def explore(self, prog, body, label='', unroll=40, feas_ms=2000, max_paths=4000, stubs=None, loop_abs=None, validate=True):
         """body(it) -> value.  It must build the world on it.world from named symbols (ctx.sym) and call it.run / it.call.
         Returns list of PathResult (one per feasible path)."""
         ctx = Ctx(feas_timeout_ms=feas_ms, seed=self.seed)
@@ -120,8 +121,9 @@ class Check:
                 kind, msg = 'unsupported', str(e)
             self.functions |= it.encoded; self.models |= it.models_used
             self.stubs |= set(it.stubs)
-            pr = PathResult(kind, val, ctx.conds(), it.world, list(ctx.log), msg, dict(it.observed), list(ctx.prefix))
-            pr.tag = label
+            pr = PathResult(kind, val, ctx.conds(), it.world, list(ctx.log), msg, dict(it.observed), list(ctx.prefix),
+                            getattr(it, 'scenario', None), prog)
+            pr.tag = label; pr.extra = dict(getattr(it, 'extra', {}))
             results.append(pr)
         self.paths_total += len(results); self.feas_queries += ctx.nqueries; self.solver_s += ctx.qtime
         self.unknown_feas += ctx.nunknown
@@ -130,7 +132,37 @@ class Check:
         if uns:
             for r in uns[:5]:
                 self.inconclusive.append('%s: %s path: %s' % (label, r.kind, r.msg))
+        if validate and not os.environ.get('VERIF_NO_REPLAY'):
+            self.validate(results, label)
         return results
+
+    def validate(self, paths, label=''):
+        """translation validation: one solver model per explored path, the real contract is run on it, and outcome class,
+        every emitted message and the full storage afterwards must equal the interpreter's prediction."""
+        from . import replay
+        todo = []
+        for p in paths:
+            if p.scenario is None or p.kind not in ('ret', 'panic'): continue
+            r, model, dt = self.solve(p.conds + list(p.scenario.get('nice', [])), 10000)
+            if r != z3.sat:
+                r, model, dt = self.solve(p.conds, 10000)
+            if r != z3.sat: continue
+            try:
+                sc, conc = replay.scenario(p.prog, p.scenario, model)
+            except Exception as e:
+                self.inconclusive.append('%s: cannot serialise scenario for replay: %r' % (label, e)); continue
+            todo.append((p, sc, conc))
+        if not todo: return
+        outs = replay.run_scenarios([sc for _, sc, _ in todo])
+        for (p, sc, conc), real in zip(todo, outs):
+            mism = replay.compare(p.prog, p, conc, real)
+            if mism:
+                os.makedirs(REPLAYS, exist_ok=True)
+                fn = os.path.join(REPLAYS, '%s-mismatch-%d.json' % (self.pid, len(self.inconclusive)))
+                json.dump(dict(scenario=sc, real=real, predicted=p.short(), mismatches=mism, decisions=p.log), open(fn, 'w'), indent=1)
+                self.inconclusive.append('%s: interpreter and real contract disagree on path %s (%s): %s' % (label, p.short(), fn, mism[0][:300]))
+            else:
+                self.validated += 1
 
     # ------------------------------------------------------------------------------------------
     def solve(self, conds, timeout_ms=None):
@@ -177,12 +209,32 @@ class Check:
         os.makedirs(REPLAYS, exist_ok=True)
         n = len(self.violations)
         fn = os.path.join(REPLAYS, '%s-%d.json' % (self.pid, n))
+        confirmed = None; native = None
+        builder = path.scenario if path.scenario is not None else None
+        if builder is not None and not os.environ.get('VERIF_NO_REPLAY'):
+            from . import replay
+            try:
+                sc, conc = replay.scenario(path.prog, path.scenario, model)
+                real = replay.run_scenarios([sc])[0]
+                mism = replay.compare(path.prog, path, conc, real)
+                native = dict(scenario=sc, real=real, mismatches=mism)
+                confirmed = not mism
+            except Exception as e:
+                native = dict(error=repr(e)); confirmed = False
+            if not confirmed:
+                self.inconclusive.append('%s: solver counterexample did not reproduce natively (%s): %s'
+                                         % (oid, fn, str(native.get('mismatches') or native.get('error'))[:300]))
+                rec['replay_confirmed'] = False
+                json.dump(dict(property=self.pid, obligation=oid, desc=desc, native=native), open(fn, 'w'), indent=1, default=str)
+                return
         mdl = {}
         for d in model.decls():
             try: mdl[d.name()] = str(model[d])
             except Exception: pass
         json.dump(dict(property=self.pid, obligation=oid, desc=desc, site=key, path=path.short(), decisions=path.log,
-                       tag=path.tag, model=mdl), open(fn, 'w'), indent=1)
+                       tag=path.tag, model=mdl, native=native,
+                       replay_confirmed=confirmed if confirmed is not None else 'not replayable (function-level obligation)'),
+                  open(fn, 'w'), indent=1, default=str)
         self.violations.append((oid, fn, key))
         rec['replay'] = fn
 
@@ -290,6 +342,16 @@ def mk_env(it, time_nanos, height=12345, contract=None):
 
 def mk_info(sender, funds=()):
     return Agg('cosmwasm_std::MessageInfo', [sender if isinstance(sender, Agg) else ADDR(sender), VecV(list(funds))])
+
+
+def enter(it, contract, entry, env, info, msg, nice=()):
+    """run a real contract entry point (`<contract>::contract::<entry>`) after snapshotting the pre-state for replay."""
+    from . import replay
+    it.scenario = dict(contract=contract, entry=entry, pre=replay.snapshot(it.world), env=env, info=info, msg=dup(msg), nice=list(nice))
+    name = '%s::contract::%s' % (contract, entry)
+    if entry == 'query': return run_entry(it, name, mk_deps(mut=False), env, msg)
+    if entry == 'reply': return run_entry(it, name, mk_deps(), env, msg)
+    return run_entry(it, name, mk_deps(), env, info, msg)
 
 
 def run_entry(it, name, *args):
